@@ -90,6 +90,11 @@ def gen(rng, arch):
             lines += ["@struct " + sn, "  fa 2", "  fb @dw", "  fc %d" % big1, "  fd @sizeof .fc - %d" % (big1 - big2) if big1 >= big2 else "  fd %d" % big2, "@endstruct"]
             syms[sn] = (4 + big1 + big2, []); syms[sn + ".fa"] = (0, [("@SIZEOF", "2")]); syms[sn + ".fb"] = (2, [("@SIZEOF", "2")])
             syms[sn + ".fc"] = (4, [("@SIZEOF", str(big1))]); syms[sn + ".fd"] = (4 + big1, [("@SIZEOF", str(big2))])
+        elif r < 0.885 and syms:
+            # using a symbol as an operand (here: in an assertion, which places no bytes) leaves its metadata alone,
+            # whatever block is open at the use
+            n = rng.choice(list(syms))
+            lines.append("@assert ( %s - %s ) == 0" % (n, n))
         elif r < 0.90 and scope is not None:
             nlab += 1; n = "%s.lc%d" % (scope, nlab)
             lines.append(".lc%d:" % nlab); syms[n] = (here, list(cur))
